@@ -87,16 +87,16 @@ Theorem resolution_correct_partial :
 Proof. exact resolution_correct_core. Qed.
 Print Assumptions resolution_correct_partial.
 
-(* rename_alpha (on the fragment [core] = [core_d] without default values, as a corollary of
-   resolution_correct_partial): take any assignment rho of
+(* rename_alpha (on the fragment of resolution_correct_partial, as its corollary): take any assignment rho of
    new names to Vars that gives distinct names, not occurring in the program, to the declared Vars and leaves
    undeclared Vars alone.  The program in which every identifier occurrence is replaced by rho of its Var
-   ([rename_prog], same tree shape) is in the fragment again and the declarative resolver binds every
-   occurrence of it in the same scope as before, under the new name: the renamed program is
-   alpha-equivalent to the original.  Example: Main2.rename_example. *)
+   ([rename_prog], same tree shape) is in the fragment again (and in the fragment without default values and
+   classes, [core], if p is) and the declarative resolver binds every occurrence of it in the same scope as
+   before, under the new name: the renamed program is alpha-equivalent to the original.
+   Example: Main2.rename_example, Main2.rename_example_d. *)
 Theorem rename_alpha :
   forall (p : prog) (rho : nat -> Z),
-    core p = true -> program_ok p = true -> Z.of_nat (occurrences p) < 65536 ->
+    core_d p = true -> program_ok p = true -> Z.of_nat (occurrences p) < 65536 ->
     exists ps,
       run_program p = Running ps /\
       let st := pst ps in
@@ -108,11 +108,25 @@ Theorem rename_alpha :
       (forall i, (i < length vs)%nat -> vdecl (vget st (nth i vs O)) <> NoDecl -> ~ In (rho (nth i vs O)) (allnames p)) ->
       (forall i, (i < length vs)%nat -> vdecl (vget st (nth i vs O)) = NoDecl -> rho (nth i vs O) = vname (vget st (nth i vs O))) ->
       let p' := rename_prog (map rho vs) p in
-      core p' = true /\
+      core_d p' = true /\ (core p = true -> core p' = true) /\
       spec_resolve p' =
         map (fun vt => match snd vt with TGlobal x => TGlobal x | TBind s a _ => TBind s a (rho (fst vt)) end) (combine vs ts).
 Proof. exact rename_alpha_core. Qed.
 Print Assumptions rename_alpha.
+
+(* the specification side of rename_alpha, for ALL binding programs (every construct, no fragment): the
+   declarative resolver commutes with renaming by declaration.  If f gives every declaration of p (a target
+   TBind s a x of [spec_resolve p]) a name, injectively and outside the names of p, then the program whose
+   occurrences are renamed after their targets resolves to the same targets under the new names.
+   Example: Main2.spec_rename_all_example (loop head, catch, expression names, x => ..., parenthesised list). *)
+Theorem rename_alpha_spec :
+  forall (p : prog) (f : nat -> bool -> Z -> Z),
+    let ts := spec_resolve p in
+    (forall s a x t b y, In (TBind s a x) ts -> In (TBind t b y) ts -> f s a x = f t b y -> s = t /\ a = b /\ x = y) ->
+    (forall s a x, In (TBind s a x) ts -> ~ In (f s a x) (allnames p)) ->
+    spec_resolve (rename_prog (map (newname f) ts) p) = map (retarget f) ts.
+Proof. exact spec_rename_all. Qed.
+Print Assumptions rename_alpha_spec.
 
 (* ---- clauses of the property text that are FALSE of the faithful model (and of /repo: KNOWN_FINDINGS.txt
    c04-es:..., witnesses also in corpus/C04.txt where model and implementation agree).  [deviates p]: p has
